@@ -163,7 +163,7 @@ PLANS = {
         'legs': [vf.graph_leg('g10', 'Graph_C10', {'quick': {'GRAPH_MAXLEN': '7'}, 'thorough': {'GRAPH_MAXLEN': '8'}}, g10_events,
                               'every string over {I,V,X,L,C,D,M} up to length 7 (thorough 8): accepted <=> in the group language, value = sum of groups; '
                               'lower/mixed case, []byte, Valid, UnmarshalText agree (anomalies empty); MC_C10: two parser definitions agree, parse unambiguous',
-                              mc_module='MC_C10')],
+                              mc_module='MC_C10', mc_env={'quick': {'GRAPH_MAXLEN': '6'}})],
         'drivers': [{'name': 'c10', 'shards': 8}],
         'codes': ['C10.'],
         'exhaustive': {'quick': True, 'thorough': True},
